@@ -1,4 +1,10 @@
-"""C13 — spatial selection: delegation to the single predicate, closed comparisons."""
+"""C13 — spatial selection: delegation to the single predicate, closed comparisons.
+
+The rules decide on normalised code (ctx.view: private helpers expanded, hoisted constants substituted) and on facts that
+do not depend on layout: which clauses hold on every path to a `return None` (guard clauses, nested ifs, merged / split
+conditions, conditional expressions give the same clauses), which parameter a compared value is computed from, on which
+side of the accept / reject decision a comparison sits.  Locals are identified by what they are bound from.
+"""
 
 from __future__ import annotations
 
@@ -6,13 +12,199 @@ import ast
 
 from ..model import AnalysisError, unparse
 from ..report import RuleResult
+from ._c13_sem import (NP_ORDERING, ORDERING, PathFacts, call_name, ex, is_none, is_reducer, local_defs, mentions, names_from, prepare,
+                       taint, taint_of)
 
 # no per-element selection: the four corners are kept or dropped together (not among the object kinds C13 enumerates)
 WHOLE_OBJECT = {"GeoImage": "image corners are selected all-or-nothing; `inverse` has no per-element meaning"}
+# data follow "their vertices or cells" (property text): the other associations have no geometry to select by
+GEOMETRY_ASSOCIATIONS = {"VERTEX", "CELL"}
+COUNTERS = {"count_nonzero", "sum"}
+COMPLEMENT_CALLS = {"logical_not", "invert", "bitwise_not"}
 
 
 def _predicate(p):
     return p.module("shared/utils.py").functions.get("mask_by_extent")
+
+
+def _is_call_to(p, mod, call, target) -> bool:
+    """`call` invokes the module-level function `target` (through any import alias / module attribute); a bare name that
+    the calling module does not define (code expanded from a helper of another module) is matched by name."""
+    if not isinstance(call, ast.Call):
+        return False
+    r = p.resolve_expr(mod, call.func)
+    if r is not None:
+        return r[0] == "func" and r[1] is target
+    return isinstance(call.func, ast.Name) and call.func.id == target.name
+
+
+def _mask_source(p, fn, call, pred):
+    """Positional slot of `inverse` when `call` yields a selection mask that the rules accept as delegated: the shared
+    predicate, or the same method of a base class (`super().mask_by_extent(..)`, `Base.mask_by_extent(self, ..)`) — which is
+    itself an override checked here.  None for any other call."""
+    if not isinstance(call, ast.Call):
+        return None
+    if _is_call_to(p, fn.module, call, pred):
+        return 2
+    f = call.func
+    if fn.cls is None or not (isinstance(f, ast.Attribute) and f.attr == fn.name == "mask_by_extent"):
+        return None
+    if isinstance(f.value, ast.Call) and isinstance(f.value.func, ast.Name) and f.value.func.id == "super":
+        return 1
+    if isinstance(f.value, ast.Name):
+        r = p.resolve_name(fn.module, f.value.id)
+        if r and r[0] == "class" and r[1] is not fn.cls and r[1] in fn.cls.mro and call.args \
+                and isinstance(call.args[0], ast.Name) and call.args[0].id == fn.self_name:
+            return 2
+    return None
+
+
+def _argument(call, name, index, fn_node=None, defs=None):
+    """Expression passed for parameter `name` (positional slot `index`, None = keyword only), or None.  A `**options`
+    argument is read through when `options` is a dict display / dict(...) call bound once in the function."""
+    for k in call.keywords:
+        if k.arg == name:
+            return k.value
+    for k in call.keywords:
+        if k.arg is None and fn_node is not None:
+            d = ex(k.value, fn_node, defs)
+            if isinstance(d, ast.Dict):
+                for key, val in zip(d.keys, d.values):
+                    if isinstance(key, ast.Constant) and key.value == name:
+                        return val
+            elif isinstance(d, ast.Call) and isinstance(d.func, ast.Name) and d.func.id == "dict" and not d.args:
+                for kk in d.keywords:
+                    if kk.arg == name:
+                        return kk.value
+    if index is not None and len(call.args) > index and not any(isinstance(a, ast.Starred) for a in call.args[: index + 1]):
+        return call.args[index]
+    return None
+
+
+def _is_param(e, name, fn_node, defs) -> bool:
+    """`e` is the caller's parameter `name` (possibly through aliases, or wrapped in bool())."""
+    if e is None:
+        return False
+    x = ex(e, fn_node, defs)
+    if isinstance(x, ast.Call) and isinstance(x.func, ast.Name) and x.func.id == "bool" and len(x.args) == 1 and not x.keywords:
+        x = x.args[0]
+    return isinstance(x, ast.Name) and x.id == name
+
+
+def _self_rooted(e, self_name) -> bool:
+    """`self.a.b`, `self.a[i]`, `getattr(self.a, "b", None)`: state of the object, not an argument of the call."""
+    if isinstance(e, ast.Call) and isinstance(e.func, ast.Name) and e.func.id == "getattr" and len(e.args) >= 2 and isinstance(e.args[1], ast.Constant):
+        return _self_rooted(e.args[0], self_name) and (len(e.args) == 2 or is_none(e.args[2]))
+    if not isinstance(e, (ast.Attribute, ast.Subscript)):
+        return False
+    while isinstance(e, (ast.Attribute, ast.Subscript)):
+        e = e.value
+    if isinstance(e, ast.Call):
+        return _self_rooted(e, self_name)
+    return isinstance(e, ast.Name) and e.id == self_name
+
+
+class _Override:
+    """One mask_by_extent override, prepared for path questions."""
+
+    def __init__(self, p, fn, pred):
+        self.p, self.fn, self.pred = p, fn, pred
+        self.pf = PathFacts(fn.node)
+        self.node, self.defs = self.pf.node, self.pf.defs
+        self.self_name = fn.self_name or "self"
+        self.ext_name = fn.params[1] if len(fn.params) > 1 else "extent"
+        self.inv_name = fn.params[2] if len(fn.params) > 2 else "inverse"
+        self.bi = p.module("shared/utils.py").functions.get("box_intersect")
+        self.pcalls = [n for n in ast.walk(self.node) if _mask_source(p, fn, n, pred) is not None]
+        self._pc = {id(c) for c in self.pcalls}
+        self.derived = names_from(self.node, lambda x: id(x) in self._pc)
+
+    def from_pred(self, e) -> bool:
+        return any(id(x) in self._pc or _mask_source(self.p, self.fn, x, self.pred) is not None
+                   or (isinstance(x, ast.Name) and x.id in self.derived) for x in ast.walk(e))
+
+    def _reads_inverse(self, e) -> bool:
+        """The condition itself depends on `inverse` (forwarding it to the shared predicate does not count)."""
+        slot = _mask_source(self.p, self.fn, e, self.pred)
+        if slot is not None:
+            return any(self._reads_inverse(a) for a in e.args[:slot])
+        if isinstance(e, ast.Name):
+            return e.id == self.inv_name
+        return any(self._reads_inverse(c) for c in ast.iter_child_nodes(e))
+
+    def forwards_inverse(self, call) -> bool:
+        slot = _mask_source(self.p, self.fn, call, self.pred)
+        return _is_param(_argument(call, "inverse", slot, self.node, self.defs), self.inv_name, self.node, self.defs)
+
+    # ---- accepted reasons for returning nothing
+    def _literal_reason(self, node, pol):
+        if self._reads_inverse(node):
+            return None
+        if isinstance(node, ast.Call) and self.bi is not None and _is_call_to(self.p, self.fn.module, node, self.bi):
+            if not pol and any(_is_param(a, self.ext_name, self.node, self.defs) for a in node.args + [k.value for k in node.keywords]):
+                return "box misses the bounding box"
+            return None
+        if isinstance(node, ast.Compare) and len(node.ops) == 1 and isinstance(node.ops[0], ast.Is) and is_none(node.comparators[0]):
+            x = node.left
+            if not pol:
+                return None
+            if isinstance(x, ast.Name) and x.id == self.ext_name:
+                return "no extent"
+            if _self_rooted(x, self.self_name):
+                return "geometry missing"
+            if self.from_pred(x):
+                return "predicate result"
+            return None
+        red = is_reducer(node, {"any"}) if isinstance(node, ast.Call) else None
+        if red and not pol and self.from_pred(red[1]):
+            return "no element qualifies"
+        cnt = is_reducer(node, COUNTERS) if isinstance(node, ast.Call) else None
+        if cnt and not pol and self.from_pred(cnt[1]):
+            return "no element qualifies"
+        if isinstance(node, ast.Compare) and len(node.ops) == 1 and isinstance(node.ops[0], ast.Eq) and pol:
+            a, b = node.left, node.comparators[0]
+            for u, v in ((a, b), (b, a)):
+                c = is_reducer(u, COUNTERS) if isinstance(u, ast.Call) else None
+                if c and self.from_pred(c[1]) and isinstance(v, ast.Constant) and v.value == 0 and v.value is not False:
+                    return "no element qualifies"
+        return None
+
+    def _association_members(self, node):
+        """Members of the association enumeration that `node` (an `is` / `==` / `in` test on self.association) names."""
+        if not (isinstance(node, ast.Compare) and len(node.ops) == 1 and isinstance(node.ops[0], (ast.Is, ast.Eq, ast.In))):
+            return set()
+        a, b = node.left, node.comparators[0]
+
+        def assoc(e):
+            return isinstance(e, ast.Attribute) and e.attr == "association" and _self_rooted(e, self.self_name)
+
+        def members(e):
+            es = e.elts if isinstance(e, (ast.Tuple, ast.List, ast.Set)) else [e]
+            if all(isinstance(x, ast.Attribute) and x.attr.isupper() for x in es):
+                return {x.attr for x in es}
+            return set()
+
+        if assoc(a):
+            return members(b)
+        if assoc(b) and not isinstance(node.ops[0], ast.In):
+            return members(a)
+        return set()
+
+    def none_reason(self, facts):
+        """Why returning None under `facts` (clauses holding on every path to the return) is accepted, or None."""
+        for clause in facts:
+            rs = [self._literal_reason(*self.pf.literal(lit)) for lit in clause]
+            if rs and all(rs):
+                return " / ".join(sorted(set(rs)))
+        excluded = set()
+        for clause in facts:
+            if len(clause) == 1:
+                node, pol = self.pf.literal(next(iter(clause)))
+                if not pol:
+                    excluded |= self._association_members(node)
+        if GEOMETRY_ASSOCIATIONS <= excluded:
+            return "association without geometry"
+        return None
 
 
 def rule_deleg(ctx) -> RuleResult:
@@ -31,122 +223,256 @@ def rule_deleg(ctx) -> RuleResult:
     for ci in p.classes:
         if ci.synthetic or "mask_by_extent" not in ci.methods:
             continue
-        fn = ci.methods["mask_by_extent"]
+        fn = ctx.view(ci.methods["mask_by_extent"])
         body = [s for s in fn.node.body if not (isinstance(s, ast.Expr) and isinstance(s.value, ast.Constant))]
         ident = f"{ci.name}.mask_by_extent"
         if not body:
             res.inst(f"{ident}: declaration only (abstract / documented no-op)")
             continue
-        inv_name = fn.params[2] if len(fn.params) > 2 else "inverse"
-        # names bound (transitively) from predicate calls
-        good_calls, bad_calls = [], []
-        for n in ast.walk(fn.node):
-            if isinstance(n, ast.Call) and isinstance(n.func, ast.Name) and n.func.id == "mask_by_extent":
-                r = p.resolve_name(fn.module, "mask_by_extent")
-                if not (r and r[0] == "func" and r[1] is pred):
-                    continue
-                kw = {k.arg: unparse(k.value) for k in n.keywords}
-                passed = kw.get("inverse") == inv_name or (len(n.args) >= 3 and unparse(n.args[2]) == inv_name)
-                (good_calls if passed else bad_calls).append(n)
-        for c in bad_calls:
-            res.find(ci.name, "mask_by_extent", f"predicate called without inverse={inv_name}: {unparse(c)[:60]}",
-                     f"{fn.module.relpath}:{c.lineno}",
-                     "the override drops the `inverse` option on its way to the shared predicate: inverse selections return the non-inverted mask")
-        derived = set()
-        changed = True
-        while changed:
-            changed = False
-            for n in ast.walk(fn.node):
-                if isinstance(n, (ast.Assign, ast.AugAssign)):
-                    tg = n.targets if isinstance(n, ast.Assign) else [n.target]
-                    src_ok = any(c in list(ast.walk(n.value)) for c in good_calls + bad_calls) or any(
-                        isinstance(x, ast.Name) and x.id in derived for x in ast.walk(n.value)
-                    )
-                    for t in tg:
-                        b = t
-                        while isinstance(b, ast.Subscript):
-                            b = b.value
-                        if isinstance(b, ast.Name) and src_ok and b.id not in derived:
-                            derived.add(b.id)
-                            changed = True
-        rets = [n for n in ast.walk(fn.node) if isinstance(n, ast.Return)]
-        ok_all = True
-        for r in rets:
+        o = _Override(p, fn, pred)
+        for c in o.pcalls:
+            if not o.forwards_inverse(c):
+                res.find(ci.name, "mask_by_extent", f"predicate called without inverse={o.inv_name}",
+                         f"{fn.module.relpath}:{c.lineno}",
+                         "the override drops the `inverse` option on its way to the shared predicate: inverse selections return the non-inverted mask")
+        rets = o.pf.returns()
+        no_geometry = len(body) == 1 and isinstance(body[0], ast.Return) and (body[0].value is None or is_none(body[0].value))
+        for n, r in rets:
             v = r.value
-            if v is None or (isinstance(v, ast.Constant) and v.value is None):
-                ok = _none_allowed(fn, r)
-                what = "return None"
+            if v is None or is_none(v):
+                why = "class without geometry" if no_geometry else o.none_reason(o.pf.at(n))
+                ok = why is not None
+                what = "return None" + (f" ({why})" if ok else "")
                 if not ok:
-                    res.find(ci.name, "mask_by_extent", f"return None outside the accepted contexts (line context: {_ctx_test(fn, r)})",
+                    res.find(ci.name, "mask_by_extent", "return None outside the accepted contexts",
                              f"{fn.module.relpath}:{r.lineno}",
                              "the override returns nothing although the box may contain elements of the object")
             else:
-                from_pred = any(c in list(ast.walk(v)) for c in good_calls + bad_calls) or any(
-                    isinstance(x, ast.Name) and x.id in derived for x in ast.walk(v)
-                )
-                ok = from_pred or ci.name in WHOLE_OBJECT
-                what = f"return {unparse(v)[:40]}"
+                ok = o.from_pred(v) or ci.name in WHOLE_OBJECT
+                what = "return <value computed from the shared predicate>" if ok else "return <other value>"
                 if not ok:
-                    res.find(ci.name, "mask_by_extent", f"returned mask does not come from the shared predicate: {unparse(v)[:50]}",
+                    res.find(ci.name, "mask_by_extent", "returned mask does not come from the shared predicate",
                              f"{fn.module.relpath}:{r.lineno}",
                              "the override computes its own selection instead of delegating to shared.utils.mask_by_extent")
-            ok_all = ok_all and ok
             res.inst(f"{ident}:{r.lineno} {what}", nontrivial=True, ok=ok)
+        if any(r.value is not None and not is_none(r.value) for _, r in rets):
+            for n, facts in o.pf.fall_through():
+                ok = o.none_reason(facts) is not None
+                res.inst(f"{ident}:{n.lineno} falls off the end (implicit None)", nontrivial=True, ok=ok)
+                if not ok:
+                    res.find(ci.name, "mask_by_extent", "implicit return None outside the accepted contexts",
+                             f"{fn.module.relpath}:{n.lineno}",
+                             "the override returns nothing although the box may contain elements of the object")
         if ci.name in WHOLE_OBJECT:
             res.notes.append(f"{ident}: {WHOLE_OBJECT[ci.name]}")
     return res
 
 
-def _enclosing_ifs(fn, node):
+# ------------------------------------------------------------------------------------------------ CLOSED
+class _BoolTests(ast.NodeTransformer):
+    """`x is True` / `x == True` -> x ; `x is False` / `x is not True` -> not x (so that path pruning sees the flag itself)."""
+
+    def visit_Compare(self, node):
+        self.generic_visit(node)
+        if len(node.ops) == 1 and isinstance(node.comparators[0], ast.Constant) and isinstance(node.comparators[0].value, bool) \
+                and isinstance(node.ops[0], (ast.Is, ast.IsNot, ast.Eq, ast.NotEq)) and isinstance(node.left, ast.Name):
+            positive = node.comparators[0].value == isinstance(node.ops[0], (ast.Is, ast.Eq))
+            return node.left if positive else ast.copy_location(ast.UnaryOp(op=ast.Not(), operand=node.left), node)
+        return node
+
+
+def _shape_like(e) -> bool:
+    """An operand about the shape of an array, not about its values."""
+    return any((isinstance(x, ast.Attribute) and x.attr in ("shape", "ndim", "size", "dtype")) or (isinstance(x, ast.Call) and call_name(x) in ("len", "isinstance"))
+               for x in ast.walk(e))
+
+
+def _ordering_sites(node):
+    """[(site node, operator class, operands)] for `a < b` comparisons and np.less(a, b) style calls under `node`."""
     out = []
-
-    def rec(stmts, stack):
-        for s in stmts:
-            if s is node:
-                out.extend(stack)
-                return True
-            for fld, lab in (("body", True), ("orelse", False)):
-                blk = getattr(s, fld, None)
-                if isinstance(blk, list) and blk and isinstance(s, (ast.If, ast.For, ast.While, ast.With, ast.Try)):
-                    if rec(blk, stack + ([(s, lab)] if isinstance(s, ast.If) else [])):
-                        return True
-            if isinstance(s, ast.Try):
-                for h in s.handlers:
-                    if rec(h.body, stack):
-                        return True
-        return False
-
-    rec(fn.node.body, [])
+    for c in ast.walk(node):
+        if isinstance(c, ast.Compare):
+            operands = [c.left] + c.comparators
+            for i, op in enumerate(c.ops):
+                if isinstance(op, ORDERING):
+                    out.append((c, type(op), operands[i: i + 2]))
+        elif isinstance(c, ast.Call) and call_name(c) in NP_ORDERING and len(c.args) >= 2:
+            out.append((c, NP_ORDERING[call_name(c)], c.args[:2]))
     return out
 
 
-def _ctx_test(fn, r):
-    ifs = _enclosing_ifs(fn, r)
-    return unparse(ifs[-1][0].test)[:50] if ifs else "top level"
+def _closed_predicate(res, pred):
+    from ..cfg import CFG
+    from ..kinds import reach
 
+    node, _defs = prepare(pred.node)
+    for n in ast.walk(node):
+        if isinstance(n, (ast.If, ast.While)):
+            n.test = _BoolTests().visit(n.test)
+    if len(pred.params) < 3:
+        raise AnalysisError("shared.utils.mask_by_extent: (locations, extent, inverse) signature not found")
+    loc_p, ext_p, inv_p = pred.params[:3]
+    t = taint(node, [loc_p, ext_p])
+    cand = [(c, op, operands) for c, op, operands in _ordering_sites(node)
+            if not any(_shape_like(o) for o in operands) and set().union(*[taint_of(o, t) for o in operands]) >= {loc_p, ext_p}]
+    ids = {id(c) for c, _, _ in cand}
+    masks = names_from(node, lambda x: id(x) in ids)  # the accumulated selection and what is computed from it
+    sites = [(c, op) for c, op, operands in cand if not any(mentions(o, masks) for o in operands)]
+    if not sites:
+        raise AnalysisError("shared.utils.mask_by_extent: no coordinate comparison recognised")
+    for c, op in sites:
+        strict = op in (ast.Lt, ast.Gt)
+        res.inst(f"mask_by_extent:{c.lineno} coordinate/limit comparison {'STRICT' if strict else 'non-strict'}", ok=not strict)
+        if strict:
+            res.find("utils", "mask_by_extent", "strict comparison between coordinates and limits", f"{pred.module.relpath}:{c.lineno}",
+                     "points lying exactly on a face of the box are excluded: the box is not closed")
+    # inverse: with the flag set, every returned value went through a complement of the selection
+    sel = {id(c) for c, _ in sites}
 
-def _none_allowed(fn, r) -> bool:
-    ifs = _enclosing_ifs(fn, r)
-    if ifs:
-        test, branch = ifs[-1]
-        t = unparse(test.test)
-        if not branch:
-            return False
-        if "box_intersect" in t or "extent is None" in t:
-            return True
-        if ("np.any(" in t or ".any()" in t) and (t.startswith("~") or t.startswith("not ")):
-            return True
+    def selection(e):
+        return any(id(x) in sel or (isinstance(x, ast.Name) and x.id in masks) for x in ast.walk(e))
+
+    def elementwise(e):
+        """e is (computed from) the selection itself, not a summary of it such as np.any(selection)"""
+        return selection(e) and not any(isinstance(x, ast.Call) and (call_name(x) in COUNTERS | {"any", "len"} or (call_name(x) == "all" and not x.keywords))
+                                        for x in ast.walk(e))
+
+    def complements(e):
+        for x in ast.walk(e):
+            if isinstance(x, ast.UnaryOp) and isinstance(x.op, ast.Invert) and elementwise(x.operand):
+                return True
+            if isinstance(x, ast.Call) and call_name(x) in COMPLEMENT_CALLS and x.args and elementwise(x.args[0]):
+                return True
+            # branch-free forms: selection ^ inverse, selection != inverse, np.logical_xor(selection, inverse)
+            pair = None
+            if isinstance(x, ast.BinOp) and isinstance(x.op, ast.BitXor):
+                pair = (x.left, x.right)
+            elif isinstance(x, ast.Compare) and len(x.ops) == 1 and isinstance(x.ops[0], ast.NotEq):
+                pair = (x.left, x.comparators[0])
+            elif isinstance(x, ast.Call) and call_name(x) in ("logical_xor", "bitwise_xor", "not_equal") and len(x.args) == 2:
+                pair = tuple(x.args)
+            if pair and any(elementwise(a) and isinstance(b, ast.Name) and b.id == inv_p for a, b in (pair, pair[::-1])):
+                return True
         return False
-    # top level: whole-function `return None` (no geometry), or fall-through after `if <geometry> is not None: return ...`
-    body = [s for s in fn.node.body if not (isinstance(s, ast.Expr) and isinstance(s.value, ast.Constant))]
-    if body == [r]:
-        return True
-    idx = body.index(r) if r in body else -1
-    if idx > 0 and isinstance(body[idx - 1], ast.If):
-        prev = body[idx - 1]
-        t = unparse(prev.test)
-        ends_return = isinstance(prev.body[-1], ast.Return)
-        if ends_return and ("is not None" in t or "is DataAssociationEnum" in t or "association" in t):
+
+    g = CFG(node)
+
+    def comp_node(n):
+        src = n.ast if n.kind in ("stmt", "return") else None
+        return src is not None and not isinstance(src, list) and complements(src)
+
+    rets = [n for n in g.nodes if n.kind == "return" and n.ast is not None and not is_none(n.ast)]
+    if not rets:
+        raise AnalysisError("shared.utils.mask_by_extent: no value-returning exit found")
+    seen = reach(g, [g.entry], inv_p, {"truthy:" + inv_p: True}, avoid=comp_node)
+    bad = [r for r in rets if r in seen]
+    res.inst("with `inverse` set every exit returns the complement of the selection", nontrivial=True, ok=not bad)
+    if bad:
+        res.find("utils", "mask_by_extent", "inverse branch does not return the complement", pred.where,
+                 "the inverse option no longer applies the complementary test")
+
+
+def _closed_box(res, bi):
+    """box_intersect: every ordering comparison deciding the result must sit on the right side: a comparison whose truth
+    rejects must be strict, one whose truth is needed to accept must be non-strict (touching boxes intersect)."""
+    pf = PathFacts(bi.node)
+    node = pf.node
+    assigned: dict = {}
+    for n in ast.walk(node):
+        if isinstance(n, (ast.Assign, ast.AugAssign, ast.AnnAssign)) and getattr(n, "value", None) is not None:
+            for tg in (n.targets if isinstance(n, ast.Assign) else [n.target]):
+                if isinstance(tg, ast.Name):
+                    assigned.setdefault(tg.id, []).append(n.value)
+    verdicts: dict = {}  # id(site) -> (site, operator, accept side?)
+    visiting = set()
+
+    def side(e, accept):
+        if isinstance(e, ast.UnaryOp) and isinstance(e.op, (ast.Not, ast.Invert)):
+            side(e.operand, not accept)
+        elif isinstance(e, ast.BoolOp):
+            for v in e.values:
+                side(v, accept)
+        elif isinstance(e, ast.BinOp) and isinstance(e.op, (ast.BitAnd, ast.BitOr, ast.Mult)):
+            side(e.left, accept)
+            side(e.right, accept)
+        elif isinstance(e, ast.IfExp):
+            side(e.body, accept)
+            side(e.orelse, accept)
+        elif isinstance(e, (ast.GeneratorExp, ast.ListComp, ast.SetComp)):
+            side(e.elt, accept)
+        elif isinstance(e, (ast.List, ast.Tuple)):
+            for v in e.elts:
+                side(v, accept)
+        elif isinstance(e, ast.Compare):
+            for i, op in enumerate(e.ops):
+                if isinstance(op, ORDERING):
+                    verdicts[(id(e), i)] = (e, type(op), accept)
+        elif isinstance(e, ast.Call):
+            nm = call_name(e)
+            if nm in NP_ORDERING and len(e.args) >= 2:
+                verdicts[(id(e), 0)] = (e, NP_ORDERING[nm], accept)
+            elif nm in COMPLEMENT_CALLS and e.args:
+                side(e.args[0], not accept)
+            elif nm in ("any", "all", "bool", "logical_and", "logical_or", "asarray", "array", "alltrue", "sometrue"):
+                if isinstance(e.func, ast.Attribute) and not (isinstance(e.func.value, ast.Name) and e.func.value.id in ("np", "numpy")):
+                    side(e.func.value, accept)
+                for a in e.args:
+                    side(a, accept)
+        elif isinstance(e, ast.Name) and e.id in assigned and e.id not in visiting:
+            visiting.add(e.id)
+            for v in assigned[e.id]:
+                side(v, accept)
+            visiting.discard(e.id)
+
+    rets = [(n, r.value) for n, r in pf.returns() if r.value is not None]
+    if not rets:
+        raise AnalysisError("shared.utils.box_intersect: no value-returning exit found")
+    # input validation (a test that only leads to `raise`, an assert) decides nothing about the result
+    checks, validation = set(), set()
+    for n in ast.walk(node):
+        if (isinstance(n, ast.If) and n.body and isinstance(n.body[-1], ast.Raise)) or isinstance(n, ast.Assert):
+            checks |= {id(x) for x in ast.walk(n.test)}
+            validation |= {id(c) for c, _, _ in _ordering_sites(n.test)}
+    # a verdict stored in a local that is returned later (`overlap = False; break`) is decided where it is stored
+    returned = {x.id for _, v in rets for x in ast.walk(v) if isinstance(x, ast.Name)}
+    for n in pf.g.nodes:
+        a = n.ast
+        if n.kind == "stmt" and n in pf.IN and isinstance(a, ast.Assign) and len(a.targets) == 1 and isinstance(a.targets[0], ast.Name) \
+                and a.targets[0].id in returned and isinstance(a.value, ast.Constant) and isinstance(a.value.value, bool):
+            rets.append((n, a.value))
+    common = frozenset.intersection(*[pf.at(n) for n, _ in rets])
+    for n, v in rets:
+        const = v.value if isinstance(v, ast.Constant) and isinstance(v.value, bool) else None
+        if const is None:
+            side(v, True)
+            continue
+        # conditions that single out this exit: true on every path to it, not on every path to every exit
+        for clause in pf.at(n) - common:
+            for lit in clause:
+                a, pol = pf.literal(lit)
+                if id(a) not in checks:
+                    side(a, pol == const)
+    placed = {k[0] for k in verdicts}
+    if not verdicts:
+        raise AnalysisError("shared.utils.box_intersect: rejecting test not found")
+    for c, _op, _ in _ordering_sites(node):
+        if id(c) not in placed and id(c) not in validation and not _inside(node, c, placed):
+            raise AnalysisError(f"box_intersect:{c.lineno}: comparison not understood as accepting or rejecting")
+    for (_cid, _i), (c, op, accept) in sorted(verdicts.items(), key=lambda kv: (kv[1][0].lineno, kv[0][1])):
+        strict = op in (ast.Lt, ast.Gt)
+        ok = strict != accept
+        how = ("accepts on " if accept else "rejects on ") + ("strict" if strict else "non-strict") + " comparison"
+        res.inst(f"box_intersect:{c.lineno} {how}", ok=ok)
+        if not ok:
+            res.find("utils", "box_intersect", "rejects touching boxes" if not accept else "accepts only strictly overlapping boxes",
+                     f"{bi.module.relpath}:{c.lineno}",
+                     "a box that only touches the object's bounding box is treated as disjoint: elements on the shared face are lost")
+
+
+def _inside(root, c, placed_ids) -> bool:
+    """c is a copy living inside an already placed expression (tests are alias-expanded copies)."""
+    for x in ast.walk(root):
+        if id(x) in placed_ids and any(y is c for y in ast.walk(x)):
             return True
     return False
 
@@ -161,57 +487,34 @@ def rule_closed(ctx) -> RuleResult:
     )
     p = ctx.p
     pred = _predicate(p)
-    loops = [n for n in ast.walk(pred.node) if isinstance(n, ast.For)]
-    if not loops:
-        raise AnalysisError("shared.utils.mask_by_extent: per-axis loop not found")
-    cmps = [c for lp in loops for c in ast.walk(lp) if isinstance(c, ast.Compare)]
-    calls = [c for lp in loops for c in ast.walk(lp) if isinstance(c, ast.Call) and isinstance(c.func, ast.Attribute)
-             and c.func.attr in ("less", "greater", "less_equal", "greater_equal")]
-    if not cmps and not calls:
-        raise AnalysisError("shared.utils.mask_by_extent: no coordinate comparison recognised")
-    for c in cmps:
-        for op in c.ops:
-            if isinstance(op, (ast.LtE, ast.GtE)):
-                res.inst(f"mask_by_extent:{c.lineno} {unparse(c)[:40]} non-strict", ok=True)
-            elif isinstance(op, (ast.Lt, ast.Gt)):
-                res.inst(f"mask_by_extent:{c.lineno} {unparse(c)[:40]} STRICT", ok=False)
-                res.find("utils", "mask_by_extent", f"strict comparison {unparse(c)[:40]}", f"{pred.module.relpath}:{c.lineno}",
-                         "points lying exactly on a face of the box are excluded: the box is not closed")
-            else:
-                raise AnalysisError(f"mask_by_extent:{c.lineno}: unrecognised comparison {unparse(c)}")
-    for c in calls:
-        ok = c.func.attr in ("less_equal", "greater_equal")
-        res.inst(f"mask_by_extent:{c.lineno} np.{c.func.attr}", ok=ok)
-        if not ok:
-            res.find("utils", "mask_by_extent", f"strict comparison np.{c.func.attr}", f"{pred.module.relpath}:{c.lineno}",
-                     "points lying exactly on a face of the box are excluded")
-    # inverse
-    inv = pred.params[2] if len(pred.params) > 2 else "inverse"
-    inv_ifs = [n for n in ast.walk(pred.node) if isinstance(n, ast.If) and unparse(n.test) == inv]
-    ok = any(isinstance(s, ast.Return) and isinstance(s.value, ast.UnaryOp) and isinstance(s.value.op, ast.Invert) for i in inv_ifs for s in i.body)
-    where_np = any(isinstance(n, ast.Call) and unparse(n.func) in ("np.logical_not", "np.invert") for n in ast.walk(pred.node))
-    res.inst("mask_by_extent: `if inverse: return ~indices`", ok=ok or where_np)
-    if not (ok or where_np):
-        res.find("utils", "mask_by_extent", "inverse branch does not return the complement", pred.where,
-                 "the inverse option no longer applies the complementary test")
-    # box_intersect
+    if pred is None:
+        raise AnalysisError("anchor shared.utils.mask_by_extent not found")
+    _closed_predicate(res, ctx.view(pred))
     bi = p.module("shared/utils.py").functions.get("box_intersect")
     if bi is None:
         raise AnalysisError("anchor shared.utils.box_intersect not found")
-    rej = [n for n in ast.walk(bi.node) if isinstance(n, ast.If) and any(isinstance(s, ast.Return) and unparse(s.value) == "False" for s in n.body)]
-    if not rej:
-        raise AnalysisError("shared.utils.box_intersect: rejecting test not found")
-    for r in rej:
-        t = r.test
-        if isinstance(t, ast.Compare) and len(t.ops) == 1 and isinstance(t.ops[0], (ast.Gt, ast.Lt)):
-            res.inst(f"box_intersect:{r.lineno} rejects on strict {unparse(t)}", ok=True)
-        elif isinstance(t, ast.Compare) and len(t.ops) == 1 and isinstance(t.ops[0], (ast.GtE, ast.LtE)):
-            res.inst(f"box_intersect:{r.lineno} rejects on non-strict {unparse(t)}", ok=False)
-            res.find("utils", "box_intersect", f"rejects touching boxes: {unparse(t)}", f"{bi.module.relpath}:{r.lineno}",
-                     "a box that only touches the object's bounding box is treated as disjoint: elements on the shared face are lost")
-        else:
-            raise AnalysisError(f"box_intersect:{r.lineno}: unrecognised rejecting test {unparse(t)}")
+    _closed_box(res, ctx.view(bi))
     return res
+
+
+# ------------------------------------------------------------------------------------------------ FWD
+NESTED = ("mask_by_extent", "copy_from_extent")
+
+
+def _method_slots(p, name) -> dict:
+    """Positional slot (after self) of `extent` and `inverse` in the methods called `name`, when all definitions agree."""
+    slots: dict = {}
+    for fn in p.all_functions():
+        if fn.name != name or fn.cls is None:
+            continue
+        ps = fn.params[1:] if fn.kind != "staticmethod" else fn.params
+        for prm in ("extent", "inverse"):
+            idx = ps.index(prm) if prm in ps else None
+            if prm in slots and slots[prm] != idx:
+                slots[prm] = None
+            else:
+                slots.setdefault(prm, idx)
+    return slots
 
 
 def rule_fwd(ctx) -> RuleResult:
@@ -224,61 +527,64 @@ def rule_fwd(ctx) -> RuleResult:
         floor=12,
     )
     p = ctx.p
-    for fn in p.all_functions():
-        params = fn.params + [a.arg for a in fn.node.args.kwonlyargs]
+    pred = _predicate(p)
+    slots = {nm: _method_slots(p, nm) for nm in NESTED}
+    for fn0 in p.all_functions():
+        params = fn0.params + [a.arg for a in fn0.node.args.kwonlyargs]
         if "inverse" not in params or "extent" not in params:
             continue
-        for c in ast.walk(fn.node):
+        fn = ctx.view(fn0)
+        node = fn.node
+        defs = local_defs(node)
+        for c in ast.walk(node):
             if not isinstance(c, ast.Call):
                 continue
-            nm = c.func.attr if isinstance(c.func, ast.Attribute) else getattr(c.func, "id", None)
-            if nm not in ("mask_by_extent", "copy_from_extent"):
+            nm = call_name(c)
+            if nm not in NESTED:
                 continue
-            kw = {k.arg: unparse(k.value) for k in c.keywords}
-            # positional layout: function form (locations, extent, inverse); method forms (extent, ..., inverse=...)
-            pos = [unparse(a) for a in c.args]
-            is_pred = isinstance(c.func, ast.Name)
-            explicit_self = isinstance(c.func, ast.Attribute) and isinstance(c.func.value, ast.Name) and c.func.value.id[:1].isupper()
-            ext_ok = kw.get("extent") == "extent" or "extent" in pos
-            inv_ok = kw.get("inverse") == "inverse" or (is_pred and len(pos) >= 3 and pos[2] == "inverse")
+            is_pred = pred is not None and not isinstance(c.func, ast.Attribute) and _is_call_to(p, fn.module, c, pred)
+            if not is_pred and isinstance(c.func, ast.Attribute) and pred is not None:
+                r = p.resolve_expr(fn.module, c.func)
+                is_pred = bool(r and r[0] == "func" and r[1] is pred)  # utils.mask_by_extent(...)
+            if is_pred or isinstance(c.func, ast.Name):
+                ext_i, inv_i = 1, 2
+            else:
+                ext_i, inv_i = slots[nm].get("extent"), slots[nm].get("inverse")
+                recv = c.func.value if isinstance(c.func, ast.Attribute) else None
+                rr = p.resolve_name(fn.module, recv.id) if isinstance(recv, ast.Name) and recv.id not in ("self", "cls") else None
+                if rr and rr[0] == "class":  # Class.method(self, extent, ...): explicit receiver
+                    ext_i = None if ext_i is None else ext_i + 1
+                    inv_i = None if inv_i is None else inv_i + 1
+            ext_ok = _is_param(_argument(c, "extent", ext_i, node, defs), "extent", node, defs) or any(_is_param(a, "extent", node, defs) for a in c.args)
+            inv_ok = _is_param(_argument(c, "inverse", inv_i, node, defs), "inverse", node, defs)
             ok = ext_ok and inv_ok
             res.inst(f"{fn.qualname}:{c.lineno} {unparse(c.func)}(...)", nontrivial=True, ok=ok)
             if not ok:
                 what = "inverse" if not inv_ok else "extent"
-                res.find(fn.cls.name if fn.cls else fn.module.short, fn.name, f"call to {unparse(c.func)} does not forward `{what}`",
+                callee = nm if is_pred or not isinstance(c.func, ast.Attribute) else f"<receiver>.{nm}"
+                res.find(fn.cls.name if fn.cls else fn.module.short, fn.name, f"call to {callee} does not forward `{what}`",
                          f"{fn.module.relpath}:{c.lineno}",
                          f"the caller's `{what}` is dropped on the way to {nm}: the nested selection is made with the default instead of the requested one")
         if fn.name == "copy_from_extent":
-            # mask flow: name bound from a *.mask_by_extent(...) call must be the value of copy(mask=...)
-            masks = {}
-            for n in ast.walk(fn.node):
-                if isinstance(n, ast.Assign) and len(n.targets) == 1 and isinstance(n.targets[0], ast.Name):
-                    if any(isinstance(x, ast.Call) and (getattr(x.func, "attr", None) or getattr(x.func, "id", None)) == "mask_by_extent" for x in ast.walk(n.value)):
-                        masks.setdefault(n.targets[0].id, n.lineno)
-            copies = [c for c in ast.walk(fn.node) if isinstance(c, ast.Call) and isinstance(c.func, ast.Attribute) and c.func.attr == "copy"
-                      and any(k.arg == "mask" for k in c.keywords)]
+            # mask flow: what copy(mask=...) receives is computed from a *.mask_by_extent(...) result
+            def selecting(x):
+                return isinstance(x, ast.Call) and call_name(x) == "mask_by_extent"
+
+            derived = names_from(node, selecting)
+            copies = [c for c in ast.walk(node) if isinstance(c, ast.Call) and isinstance(c.func, ast.Attribute) and c.func.attr == "copy"
+                      and _argument(c, "mask", None, node, defs) is not None]
             for c in copies:
-                mv = next(unparse(k.value) for k in c.keywords if k.arg == "mask")
-                ok = mv in masks
-                # Grid2D derives the sub-grid mask from the predicate's result through np.any / np.kron
+                mv = _argument(c, "mask", None, node, defs)
+                ok = any(selecting(x) or (isinstance(x, ast.Name) and x.id in derived) for x in ast.walk(mv))
+                res.inst(f"{fn.qualname}:{c.lineno} copy(mask=<computed from mask_by_extent>)" if ok else f"{fn.qualname}:{c.lineno} copy(mask=<other>)",
+                         nontrivial=True, ok=ok)
                 if not ok:
-                    derived = set(masks)
-                    changed = True
-                    while changed:
-                        changed = False
-                        for n in ast.walk(fn.node):
-                            if isinstance(n, ast.Assign) and len(n.targets) == 1 and isinstance(n.targets[0], ast.Name) and n.targets[0].id not in derived \
-                                    and any(isinstance(x, ast.Name) and x.id in derived for x in ast.walk(n.value)):
-                                derived.add(n.targets[0].id)
-                                changed = True
-                    ok = mv in derived
-                res.inst(f"{fn.qualname}:{c.lineno} copy(mask={mv})", nontrivial=True, ok=ok)
-                if not ok:
-                    res.find(fn.cls.name if fn.cls else fn.module.short, fn.name, f"copy(mask={mv}) is not the computed extent mask",
+                    res.find(fn.cls.name if fn.cls else fn.module.short, fn.name, "copy(mask=...) is not the computed extent mask",
                              f"{fn.module.relpath}:{c.lineno}", "the copy is not restricted to the elements selected by mask_by_extent")
     return res
 
 
+# ------------------------------------------------------------------------------------------------ ORPHAN
 def rule_orphan(ctx) -> RuleResult:
     res = RuleResult(
         "C13.ORPHAN",
@@ -293,61 +599,110 @@ def rule_orphan(ctx) -> RuleResult:
     from ..kinds import reach
 
     K = p.cls("CellObject")
-    fn = K.methods.get("mask_by_extent")
-    if fn is None:
+    fn0 = K.methods.get("mask_by_extent")
+    if fn0 is None:
         raise AnalysisError("anchor CellObject.mask_by_extent not found")
-    g = CFG(fn.node)
+    pred = _predicate(p)
+    fn = ctx.view(fn0)
+    node, defs = prepare(fn.node)
     sn = fn.self_name or "self"
-    # the mask variable: bound from the predicate
-    mask_vars = [n.targets[0].id for n in ast.walk(fn.node) if isinstance(n, ast.Assign) and isinstance(n.targets[0], ast.Name)
-                 and isinstance(n.value, ast.Call) and getattr(n.value.func, "id", None) == "mask_by_extent"]
-    if not mask_vars:
+    cells_txt = f"{sn}.cells"
+
+    def X(e):
+        return ex(e, node, defs)
+
+    def is_cells(e):
+        return unparse(X(e)) == cells_txt
+
+    # the vertex mask: what the shared predicate returned (under any local name, aliases included)
+    pcalls = {id(c) for c in ast.walk(node) if _mask_source(p, fn, c, pred) is not None}
+    if not pcalls:
         raise AnalysisError("CellObject.mask_by_extent: vertex mask from the shared predicate not found")
-    mv = mask_vars[0]
+    mask_names = {t.id for n in ast.walk(node) if isinstance(n, (ast.Assign, ast.AnnAssign)) and n.value is not None and id(n.value) in pcalls
+                  for t in (n.targets if isinstance(n, ast.Assign) else [n.target]) if isinstance(t, ast.Name)}
 
-    def all_axis1(node):
-        return isinstance(node, ast.Call) and unparse(node.func) in ("np.all", "numpy.all") and any(k.arg == "axis" and unparse(k.value) == "1" for k in node.keywords)
+    def is_mask(e):
+        x = X(e)
+        return (isinstance(x, ast.Name) and x.id in mask_names) or _mask_source(p, fn, x, pred) is not None
 
-    # (1) cell selection: np.all(mask[self.cells], axis=1)
-    cell_sel = [n for n in ast.walk(fn.node) if isinstance(n, ast.Assign) and all_axis1(n.value) and n.value.args
-                and unparse(n.value.args[0]) == f"{mv}[{sn}.cells]"]
-    res.inst("cell mask = np.all(vertex mask[self.cells], axis=1)", ok=bool(cell_sel))
-    if not cell_sel:
+    # (1) cell selection: np.all(<mask>[self.cells], axis=1)  /  <mask>[self.cells].all(axis=1)
+    def complete_cells(e):
+        x = X(e)
+        red = is_reducer(x, {"all"}) if isinstance(x, ast.Call) else None
+        if not red or not any(k.arg == "axis" and unparse(k.value) in ("1", "-1") for k in x.keywords):
+            return False
+        a = red[1]
+        return isinstance(a, ast.Subscript) and is_mask(a.value) and is_cells(a.slice)
+
+    has_sel = any(complete_cells(n) for n in ast.walk(node) if isinstance(n, ast.Call))
+    res.inst("cell mask = np.all(vertex mask[self.cells], axis=1)", ok=has_sel)
+    if not has_sel:
         res.find("CellObject", "mask_by_extent", "cells are not selected by np.all(<vertex mask>[self.cells], axis=1)", fn.where,
                  "a cell must be kept exactly when all of its vertices qualify")
         return res
-    cm = cell_sel[0].targets[0].id
-    # (2) used-vertex mask: zeros, then [self.cells[cell_mask].flatten()] = True
-    used = [n for n in ast.walk(fn.node) if isinstance(n, ast.Assign) and isinstance(n.targets[0], ast.Subscript) and isinstance(n.targets[0].value, ast.Name)
-            and f"{sn}.cells[{cm}]" in unparse(n.targets[0].slice) and unparse(n.value) == "True"]
-    zero_ok = False
-    if used:
-        um = used[0].targets[0].value.id
-        zero_ok = any(isinstance(n, ast.Assign) and unparse(n.targets[0]) == um and isinstance(n.value, ast.Call)
-                      and unparse(n.value.func) in ("np.zeros_like", "np.zeros") for n in ast.walk(fn.node))
-    res.inst("used-vertex mask starts all False and is set at the vertices of kept cells", ok=bool(used) and zero_ok)
-    if not (used and zero_ok):
+
+    # (2) used-vertex mask: all False, then set at the (flattened) vertex indices of the complete cells
+    def kept_cell_vertices(e):
+        """e mentions self.cells[<complete cells>]"""
+        return any(isinstance(x, ast.Subscript) and is_cells(x.value) and complete_cells(x.slice) for x in ast.walk(X(e)))
+
+    used = set()
+    for n in ast.walk(node):
+        if isinstance(n, ast.Assign) and len(n.targets) == 1 and isinstance(n.targets[0], ast.Subscript) and isinstance(n.targets[0].value, ast.Name) \
+                and kept_cell_vertices(n.targets[0].slice) and isinstance(n.value, ast.Constant) and n.value.value is True:
+            used.add(n.targets[0].value.id)
+    zeroed = {n.targets[0].id for n in ast.walk(node) if isinstance(n, ast.Assign) and len(n.targets) == 1 and isinstance(n.targets[0], ast.Name)
+              and isinstance(n.value, ast.Call) and call_name(n.value) in ("zeros_like", "zeros")}
+    used &= zeroed
+    # ... or computed in one expression: np.isin(np.arange(n), self.cells[<complete cells>])
+    def used_expr(e):
+        x = X(e)
+        if isinstance(x, ast.Name) and x.id in used:
+            return True
+        return isinstance(x, ast.Call) and call_name(x) in ("isin", "in1d") and len(x.args) >= 2 and call_name(x.args[0]) == "arange" and kept_cell_vertices(x.args[1])
+
+    has_used = bool(used) or any(used_expr(n) for n in ast.walk(node) if isinstance(n, ast.Call))
+    res.inst("used-vertex mask starts all False and is set at the vertices of kept cells", ok=has_used)
+    if not has_used:
         res.find("CellObject", "mask_by_extent", "used-vertex mask is not (zeros; [self.cells[cell mask].flatten()] = True)", fn.where,
                  "vertices of partially selected cells would be kept (orphans) or vertices of kept cells dropped")
         return res
-    um = used[0].targets[0].value.id
-    # (3) every path returning the mask with cells present passes `mask &= used`
+
+    # (3) every path returning the mask with cells present passes `mask &= used` (or returns mask & used)
+    def meet(e):
+        """e is <mask> & <used> in either order / np.logical_and(<mask>, <used>)"""
+        pair = None
+        if isinstance(e, ast.BinOp) and isinstance(e.op, ast.BitAnd):
+            pair = (e.left, e.right)
+        elif isinstance(e, ast.Call) and call_name(e) in ("logical_and", "bitwise_and") and len(e.args) == 2:
+            pair = tuple(e.args)
+        return bool(pair) and any(is_mask(a) and used_expr(b) for a, b in (pair, pair[::-1]))
+
     def inter(n):
         a = n.ast
-        return isinstance(a, ast.AugAssign) and isinstance(a.op, ast.BitAnd) and unparse(a.target) == mv and unparse(a.value) == um \
-            or isinstance(a, ast.Assign) and unparse(a.targets[0]) == mv and unparse(a.value) in (f"{mv} & {um}", f"{um} & {mv}", f"np.logical_and({mv}, {um})", f"np.logical_and({um}, {mv})")
+        if n.kind == "return":
+            return a is not None and meet(X(a))
+        if n.kind != "stmt":
+            return False
+        if isinstance(a, ast.AugAssign) and isinstance(a.op, ast.BitAnd):
+            return isinstance(a.target, ast.Name) and a.target.id in mask_names and used_expr(a.value)
+        if isinstance(a, ast.Assign) and len(a.targets) == 1 and isinstance(a.targets[0], ast.Name) and meet(a.value):
+            mask_names.add(a.targets[0].id)  # the intersected mask under a new name is still the vertex mask
+            return True
+        return False
 
-    if not any(inter(n) for n in g.nodes):
+    g = CFG(node)
+    marks = [n for n in g.nodes if inter(n)]
+    if not marks:
         res.inst("vertex mask &= used-vertex mask", ok=False)
         res.find("CellObject", "mask_by_extent", "the vertex mask is never intersected with the used-vertex mask", fn.where,
                  "orphan vertices (of cells cut by the box) stay selected")
         return res
-    rets = [n for n in g.nodes if n.kind == "return" and n.ast is not None
-            and any(isinstance(x, ast.Name) and x.id == mv for x in ast.walk(n.ast.value if isinstance(n.ast, ast.Return) else n.ast))]
+    rets = [n for n in g.nodes if n.kind == "return" and n.ast is not None and not is_none(n.ast)]
     if not rets:
         raise AnalysisError("CellObject.mask_by_extent: no exit returning the vertex mask recognised")
-    facts = {f"notnone:{sn}.cells": True}
-    seen = reach(g, [g.entry], sn, facts, avoid=inter)
+    facts = {f"notnone:{cells_txt}": True}
+    seen = reach(g, [g.entry], sn, facts, avoid=lambda n: n in marks)
     bad = [r for r in rets if r in seen]
     res.inst(f"{len(rets)} mask-returning exits dominated by the intersection when cells is not None", nontrivial=True, ok=not bad)
     for r in bad:
